@@ -496,7 +496,9 @@ func runMC(s *part, root, scratch, tier string, passthru []string) *PartResult {
 	bin := buildHarness(s, root, scratch)
 	out, err := run(root, nil, bin, "-test.run", "^TestMC$", "-tier", tier, "-list")
 	if err != nil {
-		fatal("listing scenarios: %v\n%s", err, out)
+		// the harness refused this tree (e.g. a scaling constant it rewrites is
+		// gone): this part cannot decide anything, the other parts still run
+		panic(buildError(fmt.Sprintf("the harness cannot be set up against this tree (listing scenarios: %v):\n%s", err, tail(out))))
 	}
 	total := 0
 	for _, l := range strings.Split(string(out), "\n") {
